@@ -194,6 +194,7 @@ macro_rules! runners {
                 "mixed" => mixed(p),
                 "lifecycle" => lifecycle(p),
                 "fault" => fault(p),
+                "slowreply" => slowreply(p),
                 other => Err(format!("scenario {other} is not available in this module")),
             }
         }
@@ -416,6 +417,52 @@ macro_rules! runners {
                 .done())
         }
 
+        // ---- 3b. slowreply: a value-returning call whose reply takes `ms` milliseconds because the actor is busy with an
+        //          earlier call; the caller must simply wait and then get its value
+        pub fn slowreply(p: &Params) -> Result<String, String> {
+            let ms = p.num("ms", 1000)? as u64;
+            let rec = Rec::new();
+            phase("slowreply: create");
+            let mut h = ProbeLive::new(rec.clone());
+            main_call!($lib, h.hold()).map_err(|e| format!("hold() panicked: {e}"))?;
+            if !wait_until(|| rec.log_contains("hold"), Duration::from_secs(3)) {
+                return Err("actor never entered hold()".to_string());
+            }
+            phase("slowreply: waiting caller");
+            let slot = Slot::new();
+            {
+                let hc = h.clone();
+                let s2 = slot.clone();
+                spawn_client!($lib, slot.clone(), {
+                    let mut hc = hc;
+                    let v = hc.add(0, 0, 1) $($aw)*;
+                    s2.set_value(v);
+                });
+            }
+            std::thread::sleep(Duration::from_millis(ms));
+            let finished_early = slot.finished();
+            phase("slowreply: release");
+            rec.open_gate();
+            settle(&|| slot.finished(), Duration::from_secs(4));
+            let (outcome, msg) = match slot.outcome() {
+                Outcome::Returned => ("returned", None),
+                Outcome::Panicked(m) => ("panicked", Some(m)),
+                Outcome::Running => ("hung", None),
+            };
+            // the actor must still be usable afterwards
+            let after = timed_call!($lib, [$($aw)*], h, h.get(), Duration::from_secs(3));
+            Ok(Obj::new(p)
+                .n("ms", ms as i64)
+                .b("finished_before_release", finished_early)
+                .s("outcome", outcome)
+                .raw("msg", jopt_str(msg.as_deref()))
+                .raw("value", jopt_num(slot.get_value()))
+                .s("get_after", &after.describe())
+                .strs("log", &rec.snapshot())
+                .n("drops", rec.drops.load(SeqCst) as i64)
+                .done())
+        }
+
         // ---- 4. fault
         pub fn fault(p: &Params) -> Result<String, String> {
             let wn = p.num("waiting", 2)? as u32;
@@ -599,6 +646,8 @@ macro_rules! runners {
             if pend > 0 {
                 // let the consuming call reach its blocking point behind the queued calls, then release the actor
                 settle(&|| fin_slot.finished(), Duration::from_millis(600));
+                // holdms: the earlier calls keep the actor busy that long before the hand-over can happen
+                std::thread::sleep(Duration::from_millis(p.num("holdms", 0)? as u64));
                 rec.open_gate();
             }
             settle(&|| fin_slot.finished(), Duration::from_secs(3));
